@@ -11,9 +11,8 @@ Stage by stage on the models of C06 (`Model/Find.lean`), C07 (`Model/Refine.lean
 
 **Shift** ("moving the image content by whole pixels inside a larger blank canvas moves every located
 feature by exactly that offset and changes no other reported quantity"):
-* `thr_shift`          the percentile threshold (non-zero pixels only) does not depend on where the
-                       content sits (`scale_shift`, the same for `convert_to_int`'s global maximum, is
-                       not proved — see the end of the file);
+* `thr_shift`, `scale_shift`   the percentile threshold (non-zero pixels only) and `convert_to_int`'s
+                       global maximum do not depend on where the content sits;
 * `maxima_shift`, `greyDilation_shift`   the local maxima of two embeddings of one content image are
                        the same content pixels (any dimension; padding ≥ margin);
 * `refine_shift`       every number `refine_com` reports is unchanged, centre and position move by the
@@ -108,6 +107,18 @@ offset. -/
 theorem thr_shift (content big : Image) (off : List Nat) (h : IsEmbed content off big) (pct : Rat) :
     percentileThr big pct = percentileThr content pct :=
   percentileOf_perm h.nonzero_perm pct
+
+/-- **scale_shift.**  `convert_to_int` multiplies every pixel by `255 / image.max()` (1 for a black
+image) and truncates: the per-pixel map `convPixel (gmax xs)` depends on the image only through
+its global maximum, which is the same for any two images with the same multiset of pixels — e.g.
+one float content shown at two offsets in equally sized black canvases. -/
+theorem scale_shift (xs ys : List Rat) (h : xs.Perm ys) :
+    convertToInt xs = xs.map (convPixel (gmax xs)) ∧
+    convertToInt ys = ys.map (convPixel (gmax xs)) :=
+  ⟨rfl, by rw [gmax_perm h]; rfl⟩
+
+example : convertToInt [255 / 4, 1 / 2, -3, 10] = [255, 2, 0, 40] ∧
+    convertToInt [10, -3, 255 / 4, 1 / 2] = [40, 0, 255, 2] := by decide +kernel
 
 /-- **maxima_shift.**  Clause "moves every located feature by exactly that offset", stage
 `grey_dilation(precise=False)`, any dimension.  `big₁`, `big₂` show the same content at the offsets
@@ -640,12 +651,6 @@ end batch
 
 /-! ## not proved
 
--- FULL (not proved): scale_shift —
---   theorem scale_shift (xs ys : List Rat) (h : xs.Perm ys) :
---     ∃ f : Rat → Nat, Find.convertToInt xs = xs.map f ∧ Find.convertToInt ys = ys.map f
---   (`convert_to_int` rescales every pixel by `255 / global max`, a function of the multiset of
---   pixels; two embeddings of one content in equally sized canvases are permutations of each other).
-
 -- FULL (not proved): locateModel_shift —
 --   for `big₁ = Locate.embed canvas off₁ content`, `big₂ = Locate.embed canvas off₂ content` with
 --   padding ≥ halo + max(margin, radius + max_iterations) + 1 on every side (halo = max of the kernel
@@ -654,7 +659,7 @@ end batch
 --       (fun m => { m with centre := centre + (off₂ − off₁), pos := pos + (off₂ − off₁) })
 --   Missing glue between the three image representations of the stage models: the flat index of an
 --   embedded `Array` (`embed` ⇒ `IsEmbedQ`, and the bandpassed canvases as embeddings of one
---   halo-extended content), `scale_shift`, `Refine.ofArray` of an embedded array as `shiftImg`, and
+--   halo-extended content), `Refine.ofArray` of an embedded array as `shiftImg`, and
 --   the preservation of the `np.where` order.  The stage theorems above (`bandpass_shift`,
 --   `bandpass_blank_far`, `thr_shift`, `greyDilation_shift`, `refine_shift`) are the steps of that
 --   proof; the composition is exercised end to end on `tp.locate` by the harness (stream `shift`) and
